@@ -303,6 +303,9 @@ def run(ctx):
              f"{len(reg)} registrations in _actors per spawn", sp.node)
         c.ob("R7", len(sysreg) == 1, sp, "one-system-registration", "the child is registered under its systemId once" if len(sysreg) == 1 else
              f"{len(sysreg)} system registrations per spawn", sp.node)
+        srcs = [w for h in helpers for w in attr_writes(h) if w.attr == "_actor_sources" and w.op == "subscript"]
+        c.ob("R7", len(srcs) >= 1, sp, "service-key-recorded", "the service key the child was spawned from is recorded (snapshots and key addressing need it)" if srcs else
+             f"{sp.short} no longer records the child's service key in _actor_sources: a snapshot cannot rebuild the actor and sendTo('<service key>') no longer finds it", sp.node)
         c.ob("R7", len(starts) >= 1, sp, "child-started", "the spawned child is started" if starts else "the spawned child is never started", sp.node)
         for st_call in starts:
             # in the sync engine start() appears twice on disjoint paths (blocking / thread)
